@@ -140,6 +140,7 @@ def install(ctx, repo, probes):
                "sibling/tiny-interval", "sibling/hash-collision",
                "shift/fresh-twin", "roundtrip/anchor-24:00-period-end",
                "roundtrip/tiny-decimal-interval",
+               "roundtrip/minute-decimal-interval",
                "twin/zone", "twin/representation", "twin/end-of-day",
                "twin/fraction-units",
                "twin/units", "roundtrip/fmt1", "roundtrip/fmt3",
@@ -656,6 +657,16 @@ def workload(ctx, repo):
                                           {"hours": 0.00002},
                                           {"hours": 1, "minutes": 0.00001},
                                           {"seconds": 0.00003}))
+                if (k // 15) % 2:
+                    # ... down to the smallest numbers a text can spell
+                    # (the interval only has to survive its own str())
+                    pool = ({"seconds": 1e-26}, {"minutes": 3e-30},
+                            {"hours": 2.0 ** -100}, {"seconds": 5e-41},
+                            {"seconds": 1e-300}, {"hours": 1,
+                                                  "seconds": 7e-35},
+                            {"minutes": 1.5e-25}, {"seconds": 5e-324})
+                    desc["dur"] = pool[(k // 30) % len(pool)]
+                    ctx.cls("roundtrip/minute-decimal-interval")
                 ctx.cls("roundtrip/tiny-decimal-interval")
         ctx.case = case
         if k % 173 == 0:
